@@ -86,7 +86,7 @@ def main():
                             out.setdefault("replays", []).append({"prop": p, "site": rj.get("site"), "failure": rj.get("failure"), "detail": str(rj.get("detail"))[:300], "kind": rj.get("kind"), "broken": str(rj.get("broken"))[:300]})
                         except Exception:
                             pass
-                out["check_%s" % p] = {"exit": rc, "violations": viol, "wall": round(time.time() - t0), "tail": o[-400:] if rc not in (0, 1) else ""}
+                out["check_%s" % p] = {"exit": rc, "violations": viol, "wall": round(time.time() - t0), "tail": o[-4000:] if rc not in (0, 1) else ""}
     finally:
         for w in (clean, mut):
             sh("git -C /repo worktree remove --force %s" % w)
